@@ -682,7 +682,7 @@ where
                     symbol = symbol - step;
                 } else {
                     // We're still in the downward search phase with exponentially increasing step size.
-                    if step << 1 != Symbol::zero() {
+                    if step << 1 > Symbol::zero() {
                         step = step << 1;
                     }
 
@@ -764,7 +764,7 @@ where
                     symbol = symbol + step;
                 } else {
                     // We're still in the upward search phase with exponentially increasing step size.
-                    if step << 1 != Symbol::zero() {
+                    if step << 1 > Symbol::zero() {
                         step = step << 1;
                     }
 
